@@ -91,13 +91,20 @@ Theorem C10_live_pinned_refuted :
 Proof. exact live_pinned_frozen_in_function. Qed.
 Print Assumptions C10_live_pinned_refuted.
 
-(* Typed arguments (mapTypedArgs): a constant argument that does not parse yields the marker when the
-   expression is compiled, and the same text arriving at run time yields the same marker. *)
+(* Typed arguments (evalTypedStage): a constant operand that does not parse makes the constructor
+   report an error when the expression is compiled; and pre-parsing the constant operands never changes
+   the stage - it is the stage that parses every operand at run time, left to right, so the same text
+   yields the same marker whether it is a constant or arrives from the context (repaired order:
+   fixes/C10-int-operand-order.patch). *)
 Theorem C10_typed_args : forall f c0 (l : list (M bytes)) i s,
   (2 <= length l)%nat -> (i < length l)%nat -> static c0 (nth i l (Ret [])) = Some s -> atoi s = None ->
-  h_body (H (p_ifold f)) c0 (map (static c0) l) = Fail ErrorNum /\ ctor_of c0 (H (p_ifold f)) l = Ret ErrorNum.
+  exists q, h_body (H (p_ifold f)) c0 (map (static c0) l) = Err q.
 Proof. exact typed_args_compile_time. Qed.
 Print Assumptions C10_typed_args.
+Theorem C10_typed_args_insensitive : forall f c0 (l : list (M bytes)), Forall kg l ->
+  meq (ctor_of c0 (H (p_ifold f)) l) (interp nomask l (p_ifold f (no_view l))).
+Proof. exact typed_args_insensitive. Qed.
+Print Assumptions C10_typed_args_insensitive.
 Theorem C10_typed_args_run_time : forall f v i r acc (l : list stage) c clk s,
   vstat v i = None -> fst (run (nth i l (Ret [])) c clk) = s -> atoi s = None ->
   fst (run (interp nomask l (ifold_run f v (i :: r) acc)) c clk) = ErrorNum.
